@@ -7,6 +7,7 @@ CONSTANTS
   MaxSubs = 0
   MaxTopics = 1
   MaxWriters = 4
+  MaxCfts = 0
   MaxReaders = 0
   TopicNames = {"A"}
   MaxOps = 8
